@@ -244,6 +244,24 @@ CLAIMED['C05'] = dict(
               'round-trip exploration',
     ref='DESIGN.md 7 (C05)')
 
+CLAIMED['C12'] = dict(
+    text='Lean 4 theorems over the call-site table regenerated from yatiml/loader.py and dumper.py on '
+         'every run (AST walk: every yaml.load / yaml.dump call of every generated function object, '
+         'with its branch, arguments and options, self.loader / self.dumper resolved to the class the '
+         'factory passes): with PyYAML\'s load/dump as universally quantified functions, every branch '
+         'of dump_function calls them exactly as dumps_function does (same Dumper class, same options), '
+         'likewise the JSON pair and the branches of load_function, and the statements configuring '
+         'the Dumper class of a dump/dumps pair are identical; hence C12_sinks_equal / '
+         'C12_sources_equal for every object and option values. That str, text stream, binary stream '
+         'and Path deliver the same characters to PyYAML is CPython/OS behaviour: exercised on the '
+         'real code over all source kinds (str, Path, text/binary file, StringIO, BytesIO) and sink '
+         'kinds (file name, Path, open file, StringIO) with keyword and positional options.',
+    note=NOTE_COMMON + 'yaml.load / yaml.dump as functions of (stream contents, class, options); '
+         'file and codec behaviour of CPython (UTF-8 locale).',
+    technique='Lean 4 proof over a call-site table regenerated from the source AST (decide) + '
+              'abstract equality theorem + exploration of all source/sink kinds on the real code',
+    ref='DESIGN.md 7 (C12)')
+
 NOT_YET = 'check not built yet in this round (planned proof: DESIGN.md section 7)'
 
 
